@@ -44,4 +44,7 @@ def queries():
                 d["D%d" % (i + 1)] = dep; d["DL%d" % (i + 1)] = dl
             qs.append(Q("split-" + "_".join("d%dl%d" % x for x in sh), "C02_split.c", SPLIT_SRCS, defs=d,
                         unwind=18, instr=RH, tier=tier))
+    for n in range(1, 9):
+        qs.append(Q("roundtrip-n%d" % n, "C02_roundtrip.c", CRC + ["src/transmission/bidib_transmission_util.c"], defs={"N": n},
+                    unwind=2 * n + 10, instr=RS, tier="quick" if n <= 6 else "thorough"))
     return qs
